@@ -444,6 +444,7 @@ def param_twins(repo: str, rel: str) -> list[tuple[str, dict[str, str]]]:
     base = ast.parse(text)
     # keyword uses in other files
     other_kw: set[tuple[str, str]] = set()
+    defined_elsewhere: set[str] = set()  # same-named functions in other files: override families (template method / implementation)
     for fp in _glob.glob(os.path.join(repo, "src", "hypergraph", "**", "*.py"), recursive=True):
         if os.path.abspath(fp) == os.path.abspath(path):
             continue
@@ -457,6 +458,8 @@ def param_twins(repo: str, rel: str) -> list[tuple[str, dict[str, str]]]:
                 for k in c.keywords:
                     if nm and k.arg:
                         other_kw.add((nm, k.arg))
+            elif isinstance(c, (ast.FunctionDef, ast.AsyncFunctionDef)):
+                defined_elsewhere.add(c.name)
 
     def funcs(t):
         out = []
@@ -480,6 +483,8 @@ def param_twins(repo: str, rel: str) -> list[tuple[str, dict[str, str]]]:
         fb = funcs(base)[fi]
         if (fb.name, pname) in other_kw:
             continue
+        if fb.name in defined_elsewhere and any(isinstance(c, ast.Call) and (c.func.attr if isinstance(c.func, ast.Attribute) else getattr(c.func, "id", None)) == fb.name and any(k.arg == pname for k in c.keywords) for c in ast.walk(base)):
+            continue  # passed by keyword to a method that another file overrides / implements: the keyword is shared API
         new = pname + "_rn"
         if any(isinstance(x, ast.Name) and x.id == new for x in ast.walk(fb)):
             continue
